@@ -18,8 +18,8 @@ ASSUMPTIONS = [
 SHARDS = {"quick": 1, "thorough": 16}
 
 NAMES = ["user_id", "uid", "Zeta", "alpha", "Beta", "_id", "a", "B", "b", "a_b", "aB", "A1", "country", "device", "z9", "Z"]
-SALTS_ASCII = ["", "s", "exp-2024", "A B", "csdvs887", "it's", 'say "hi"', "C:\\temp\\new", "a\\", "%s{0}", "#x//y", "/* c */"]
-SALTS_UNI = ["é", "jose\u0301", "日本語", "salt-\U0001f600", "ß", "İ"]
+SALTS_ASCII = [" lead", "trail ", "\ttab", " ", "  ", "a  b", "x\t", "", "s", "exp-2024", "A B", "csdvs887", "it's", 'say "hi"', "C:\\temp\\new", "a\\", "%s{0}", "#x//y", "/* c */"]
+SALTS_UNI = ["é", "jose\u0301", "日本語", "salt-\U0001f600", "ß", "İ", "\u00a0x", "x\u3000", "\u2126", "\ufb01", "\uff21"]
 
 
 @st.composite
@@ -53,7 +53,10 @@ def cases(draw):
         body = M.if_([(M.cmp_(M.ident("route"), "==", M.lit_int("1")), mkret("p"))], mkret("q"))
     else:
         body = mkret("g")
-    prog = M.program(draw(st.sampled_from(gen.EXP_NAMES)), body, salt=salt, splitters=names, salt_q=q)
+    declared = list(names)
+    if draw(st.integers(0, 5)) == 0:
+        declared.insert(draw(st.integers(0, len(declared))), draw(st.sampled_from(names)))  # a field listed twice is one field
+    prog = M.program(draw(st.sampled_from(gen.EXP_NAMES)), body, salt=salt, splitters=declared, salt_q=q)
     inputs = []
     for _ in range(draw(st.integers(3, 8))):
         env = {n: draw(gen.splitter_values(wild=True)) for n in names}
